@@ -369,6 +369,41 @@ func entries() []entry {
 			}
 			return d.Bytes(), err
 		}},
+		{"ControlFrameHandler/function-reused-after-other-frames", func(c ctlCase) ([]byte, error) {
+			// one handler function serves the connection for its lifetime: before the frame under test
+			// it has answered a ping, met a ping whose payload broke off after 3 of 5 bytes (nothing
+			// is sent for that one), and seen a pong
+			sw := &switchDst{cur: env.NewDst()}
+			hd := wsutil.ControlFrameHandler(sw, c.st())
+			plain := func(op ws.OpCode, p []byte, src io.Reader) error {
+				h := ws.Header{Fin: true, OpCode: op, Length: int64(len(p)), Masked: c.side == streams.Server, Mask: srcMask}
+				if src == nil {
+					// (the function takes its payload from a wsutil.Reader, which has unmasked it)
+					src = bytes.NewReader(p)
+				}
+				return hd(h, src)
+			}
+			if err := plain(ws.OpPing, []byte("first"), nil); err != nil {
+				return nil, fmt.Errorf("harness: first ping: %v", err)
+			}
+			first := sw.cur.Bytes()
+			sw.cur = env.NewDst()
+			cut := env.NewSrc([]byte("hel"))
+			cut.EndErr = env.ErrInjected
+			if err := plain(ws.OpPing, []byte("hello"), cut); err == nil {
+				return nil, fmt.Errorf("harness: a ping whose payload breaks off is handled without error")
+			}
+			if n := len(sw.cur.Bytes()); n != 0 {
+				return nil, fmt.Errorf("harness: %d bytes sent for a ping whose payload broke off", n)
+			}
+			plain(ws.OpPong, []byte("pong"), nil)
+			if len(first) == 0 {
+				return nil, fmt.Errorf("harness: no reply to the first ping")
+			}
+			sw.cur = env.NewDst()
+			err := plain(ws.OpCode(c.op), c.payload, nil)
+			return sw.cur.Bytes(), err
+		}},
 		{"ControlFrameHandler/Reader-inside-a-discarded-message", func(c ctlCase) ([]byte, error) {
 			d := env.NewDst()
 			mk := func(op byte, fin bool, p []byte) []byte {
@@ -385,6 +420,11 @@ func entries() []entry {
 		}},
 	}
 }
+
+// switchDst lets one handler function write to a destination the harness swaps between calls.
+type switchDst struct{ cur *env.Dst }
+
+func (s *switchDst) Write(p []byte) (int, error) { return s.cur.Write(p) }
 
 func main() {
 	explore.Main("C08", func(r *explore.Run) {
